@@ -698,9 +698,9 @@ def run(ctx):
     for si, sd in enumerate(seeds):
         rng = random.Random(sd * 7919 + 16)
         do_predicate(state, rng, 2500 if quick else 20000); ctx.log('predicate correspondence done (seed %d)' % sd)
-        do_delaunay(state, rng, 700 if quick else 6000, corpus=(si == 0)); ctx.log('Delaunay done')
-        do_constrained(state, rng, 400 if quick else 4000, corpus=(si == 0)); ctx.log('constrained done')
-        do_voronoi(state, rng, 300 if quick else 2000); ctx.log('Voronoi done')
+        do_delaunay(state, rng, 700 if quick else 5000, corpus=(si == 0)); ctx.log('Delaunay done')
+        do_constrained(state, rng, 400 if quick else 3000, corpus=(si == 0)); ctx.log('constrained done')
+        do_voronoi(state, rng, 300 if quick else 1500); ctx.log('Voronoi done')
         if state['nviol'] > 8:
             break
     ctx.cov['traces_validated_against_impl'] = ctx.cov['evaluations']
